@@ -60,6 +60,22 @@ def lines_for(meta, rng, tier, extreme=False, only=None, budget=60000):
         if len(combos) > budget: combos = rng.sample(combos, budget)
         tail = ' E' if fi['has_error'] else ''
         out += ['%s %s%s' % (f, ' '.join(c), tail) for c in combos]
+        # functions of two integers and real arguments: EVERY atomic number x every value of the second integer (all shells / transitions;
+        # the structured list of lines / Auger macros in the quick tier, all of them in the thorough tier) at one or two typical real
+        # arguments — an index error for one (Z, shell) pair must not depend on that pair being sampled
+        if nint >= 2 and len(ps) >= 3 and ps[0][1] == 'int' and ps[1][1] == 'int' and all(t == 'double' for _, t in ps[2:]):
+            n2 = ps[1][0].lower()
+            second = int_values(ps[1][0], not ('shell' in n2 or 'trans' in n2 or tier == 'thorough'), rng, tier, False)
+            typ = []
+            for n_, _ in ps[2:]:
+                nl = n_.lower()
+                typ.append([0.5] if nl == 'pz' else [1.0] if nl in ('theta', 'phi') else [0.5] if nl == 'q' else [1.5] if (nl.startswith('p') and len(nl) <= 3) else [10.0, 0.5])
+            dcomb = [[]]
+            for vs in typ: dcomb = [c + [hx(v)] for c in dcomb for v in vs]
+            for Z in range(-3, 126):
+                for v2 in second:
+                    for dc in dcomb:
+                        out.append('%s %d %d %s%s' % (f, Z, v2, ' '.join(dc), tail))
     return out
 
 # DCSP_* / DCSPb_* are non-negative only: the polarised Thomson factor 1 - sin^2(theta) cos^2(phi) vanishes for
